@@ -520,6 +520,8 @@ func (e *renv) statesV1(ep *ibctesting.Endpoint, seq uint64, recv bool) []stateV
 		{"conn-delay-1h", setConn(func(cn *connectiontypes.ConnectionEnd) { cn.DelayPeriod = uint64(time.Hour) }), restConn},
 		{"conn-delay-1ns", setConn(func(cn *connectiontypes.ConnectionEnd) { cn.DelayPeriod = 1 }), restConn},
 		{"conn-client-missing", setConn(func(cn *connectiontypes.ConnectionEnd) { cn.ClientId = "07-tendermint-99" }), restConn},
+		{"conn-prefix-empty", setConn(func(cn *connectiontypes.ConnectionEnd) { cn.Counterparty.Prefix.KeyPrefix = nil }), restConn},
+		{"conn-prefix-other", setConn(func(cn *connectiontypes.ConnectionEnd) { cn.Counterparty.Prefix.KeyPrefix = []byte("ibcx") }), restConn},
 		{"client-frozen", func() { ep.FreezeClient() }, func() { ep.SetClientState(origClient) }},
 	}
 	if recv {
@@ -530,6 +532,16 @@ func (e *renv) statesV1(ep *ibctesting.Endpoint, seq uint64, recv bool) []stateV
 		vs = append(vs, stateVar{"recvstart-equal",
 			func() { c.GetContext().KVStore(ibcKey(c)).Set(rsKey, sdk.Uint64ToBigEndian(seq)) },
 			func() { c.GetContext().KVStore(ibcKey(c)).Delete(rsKey) }})
+	}
+	// the next-sequence counter the ORDERED branch reads is missing
+	nsKey := host.NextSequenceRecvKey(ep.ChannelConfig.PortID, ep.ChannelID)
+	if !recv {
+		nsKey = host.NextSequenceAckKey(ep.ChannelConfig.PortID, ep.ChannelID)
+	}
+	if orig := c.GetContext().KVStore(ibcKey(c)).Get(nsKey); orig != nil && origCh.Ordering == channeltypes.ORDERED {
+		vs = append(vs, stateVar{"nextseq-missing",
+			func() { c.GetContext().KVStore(ibcKey(c)).Delete(nsKey) },
+			func() { c.GetContext().KVStore(ibcKey(c)).Set(nsKey, orig) }})
 	}
 	_ = k
 	_ = exported.Active
